@@ -28,6 +28,21 @@ Proof.
   apply has_spec. intros n. unfold callee_flags. rewrite N.land_spec. intros H. apply andb_true_iff in H. tauto.
 Qed.
 
+Lemma load_flags_sub f r : subflags (load_flags f r) f = true.
+Proof.
+  apply has_spec. intros n. unfold load_flags. rewrite !N.land_spec. intros H. rewrite !andb_true_iff in H. tauto.
+Qed.
+
+Lemma load_flags_readonly f r : has (load_flags f r) WriteStates = false /\ has (load_flags f r) AllowNotify = false.
+Proof.
+  split; (destruct (has _ _) eqn:H; auto; rewrite has_spec in H);
+    [specialize (H 1%N eq_refl) | specialize (H 3%N eq_refl)];
+    unfold load_flags in H; rewrite !N.land_spec in H; simpl in H; rewrite andb_false_r in H; discriminate.
+Qed.
+
+Lemma load_flags_as_hop f r : load_flags f r = callee_flags f (N.land ReadOnly r) false.
+Proof. unfold load_flags, callee_flags. rewrite N.land_assoc. reflexivity. Qed.
+
 Lemma callee_flags_requested f r : subflags (callee_flags f r false) r = true.
 Proof.
   apply has_spec. intros n. unfold callee_flags. rewrite N.land_spec. intros H. apply andb_true_iff in H. tauto.
@@ -194,13 +209,26 @@ Theorem table_native_safe_iff : forall hf l e, In (hf, l) native_methods_by_hf -
 Proof. intros hf l e H1 H2. pose proof (native_ok_gen_inv _ _ (native_in_some_hf _ _ _ H1 H2)). tauto. Qed.
 
 Lemma latest_in_by_hf : In (latest_hardfork, native_methods) native_methods_by_hf.
-Proof. vm_compute. repeat (try (left; reflexivity); right). Qed.
+Proof. unfold native_methods_by_hf. repeat (first [left; reflexivity | right]). Qed.
 
-(* F13: the full statement for callers, including the indirect ones, does NOT hold of the current tables *)
+(* F39: the full statement for callers, including the indirect ones, does NOT hold of the current tables *)
 Definition native_all_callers_need_call_statement : Prop :=
   forall e, In e native_methods ->
     (is_native_caller (nm_contract e) (nm_name e) || is_native_indirect_caller (nm_contract e) (nm_name e)) = true ->
     has (nm_flags e) AllowCall = true.
+
+Lemma native_all_callers_refuted : ~ native_all_callers_need_call_statement.
+Proof.
+  intros H.
+  assert (exists e, In e native_methods /\ nm_contract e = "NeoToken"%string /\ nm_name e = "vote"%string /\
+                    has (nm_flags e) AllowCall = false) as [e [Hin [Hc [Hm Hf]]]].
+  { destruct (find (fun e => String.eqb (nm_contract e) "NeoToken" && String.eqb (nm_name e) "vote" &&
+                             negb (has (nm_flags e) AllowCall)) native_methods) as [e|] eqn:F.
+    - apply find_some in F. destruct F as [Hin F]. rewrite !andb_true_iff in F. destruct F as [[F1 F2] F3].
+      exists e. repeat split; auto; try (apply String.eqb_eq; assumption). apply negb_true_iff; assumption.
+    - vm_compute in F. discriminate. }
+  specialize (H e Hin). rewrite Hc, Hm in H. rewrite Hf in H. specialize (H eq_refl). discriminate.
+Qed.
 
 (* ---------- the effect machine ---------- *)
 Lemma find_interop_some name l e : find_interop name l = Some e -> In e l /\ io_name e = name.
@@ -237,13 +265,13 @@ Section instr_induction.
     end.
 End instr_induction.
 
-(* no call into a method of the F13 class anywhere in the program *)
-Fixpoint f13_free (i : instr) : bool :=
+(* no call into a method of the F39 class anywhere in the program *)
+Fixpoint f39_free (i : instr) : bool :=
   match i with
   | ISys _ => true
   | INative c m _ _ => negb (is_native_indirect_caller c m)
-  | ICall _ _ body => forallb f13_free body
-  | ILoad _ body => forallb f13_free body
+  | ICall _ _ body => forallb f39_free body
+  | ILoad _ body => forallb f39_free body
   end.
 
 (* an effect is in order for a run started with flags [f]: it was performed by a frame whose flags [g] are a
@@ -253,6 +281,11 @@ Definition eff_ok (f : N) (x : effect * N) : Prop :=
 
 Lemma eff_ok_weaken f' f x : subflags f' f = true -> eff_ok f' x -> eff_ok f x.
 Proof. intros H [H1 H2]. split; auto. eapply subflags_trans; eauto. Qed.
+
+Lemma Forall_opt3 {A} (P : A -> Prop) (a b c : bool) x y z :
+  (a = true -> P x) -> (b = true -> P y) -> (c = true -> P z) ->
+  Forall P ((if a then [x] else []) ++ (if b then [y] else []) ++ (if c then [z] else [])).
+Proof. destruct a, b, c; simpl; intros; repeat constructor; auto. Qed.
 
 Section machine_proofs.
   Variable itab : list interop_entry.
@@ -269,9 +302,7 @@ Section machine_proofs.
     unfold syscall_gate in G. unfold sys_effects.
     assert (forall b, has (io_flags e) b = true -> has f b = true) as Hup.
     { intros b Hb. rewrite has_spec in *. intros n Hbn. apply G. apply Hb. exact Hbn. }
-    repeat apply Forall_app; split; try apply Forall_app; try split;
-      match goal with |- Forall _ (if ?c then _ else _) => destruct c eqn:? end; constructor; auto;
-      (split; [apply subflags_refl | simpl; apply Hup; auto]).
+    apply Forall_opt3; intros Hc'; (split; [apply subflags_refl | simpl; apply Hup; auto]).
   Qed.
 
   Lemma run_with_Forall (Q : effect * N -> Prop) ex l :
@@ -283,7 +314,7 @@ Section machine_proofs.
     destruct (run_with ex t) as [tr2 ok2]. simpl in *. apply Forall_app; auto.
   Qed.
 
-  Theorem effects_in_order : forall i f, f13_free i = true -> Forall (eff_ok f) (fst (exec itab ntab f i)).
+  Theorem effects_in_order : forall i f, f39_free i = true -> Forall (eff_ok f) (fst (exec itab ntab f i)).
   Proof.
     induction i as [name | c m a r | r s body IH | r body IH] using instr_ind2; intros f Hfree; simpl.
     - destruct (sys_step itab f name) eqn:S; simpl; [eapply sys_step_ok; eauto | constructor].
@@ -294,14 +325,12 @@ Section machine_proofs.
       destruct (native_gate _ e) eqn:G; simpl; auto.
       apply Forall_app; split; auto.
       pose proof (native_ok_inv _ (Hntab _ Hin)) as [Hw [Hno [Hca _]]]. rewrite Hc, Hm in *.
-      simpl in Hfree. apply negb_true_iff in Hfree. rewrite Hfree, orb_false_r.
-      unfold native_gate in G. unfold native_effects.
+      simpl in Hfree. apply negb_true_iff in Hfree. unfold native_effects. rewrite Hfree, orb_false_r.
+      unfold native_gate in G.
       set (f' := callee_flags f r (nm_safe e)) in *.
       assert (forall b, has (nm_flags e) b = true -> has f' b = true) as Hup.
       { intros b Hb. rewrite has_spec in *. intros n Hbn. apply G. apply Hb. exact Hbn. }
-      repeat apply Forall_app; split; try apply Forall_app; try split;
-        match goal with |- Forall _ (if ?c then _ else _) => destruct c eqn:? end; constructor; auto;
-        (split; [apply callee_flags_sub | simpl; apply Hup; auto]).
+      apply Forall_opt3; intros Hc'; (split; [apply callee_flags_sub | simpl; apply Hup; auto]).
     - destruct (sys_step itab f "System.Contract.Call") as [tr0|] eqn:S; simpl; [|constructor].
       apply sys_step_ok in S.
       destruct (run_with _ body) as [tr ok] eqn:R. simpl. apply Forall_app; split; auto.
@@ -314,11 +343,11 @@ Section machine_proofs.
       destruct (run_with _ body) as [tr ok] eqn:R. simpl. apply Forall_app; split; auto.
       change tr with (fst (tr, ok)). rewrite <- R. apply run_with_Forall.
       simpl in Hfree. rewrite forallb_forall in Hfree. rewrite Forall_forall in *. intros x Hx.
-      specialize (IH x Hx (callee_flags f r false) (Hfree x Hx)). rewrite Forall_forall in *.
-      intros y Hy. eapply eff_ok_weaken; [apply callee_flags_sub | apply IH; auto].
+      specialize (IH x Hx (load_flags f r) (Hfree x Hx)). rewrite Forall_forall in *.
+      intros y Hy. eapply eff_ok_weaken; [apply load_flags_sub | apply IH; auto].
   Qed.
 
-  (* writes and notifications are in order even for programs that use the F13 methods *)
+  (* writes and notifications are in order even for programs that use the F39 methods *)
   Definition eff_ok_wn (f : N) (x : effect * N) : Prop :=
     subflags (snd x) f = true /\ (fst x <> ECall -> has (snd x) (effect_bit (fst x)) = true).
 
@@ -344,9 +373,7 @@ Section machine_proofs.
       set (f' := callee_flags f r (nm_safe e)) in *.
       assert (forall b, has (nm_flags e) b = true -> has f' b = true) as Hup.
       { intros b Hb. rewrite has_spec in *. intros n Hbn. apply G. apply Hb. exact Hbn. }
-      repeat apply Forall_app; split; try apply Forall_app; try split;
-        match goal with |- Forall _ (if ?c then _ else _) => destruct c eqn:? end; constructor; auto;
-        (split; [apply callee_flags_sub | simpl; try (intros _; apply Hup; auto); try (intros Hne; exfalso; apply Hne; reflexivity)]).
+      apply Forall_opt3; intros Hc'; (split; [apply callee_flags_sub | simpl; intros Hne; first [exfalso; apply Hne; reflexivity | apply Hup; auto]]).
     - destruct (sys_step itab f "System.Contract.Call") as [tr0|] eqn:S; simpl; [|constructor].
       apply sys_step_ok in S. apply (Forall_impl _ (eff_ok_is_wn f)) in S.
       destruct (run_with _ body) as [tr ok] eqn:R. simpl. apply Forall_app; split; auto.
@@ -359,8 +386,8 @@ Section machine_proofs.
       destruct (run_with _ body) as [tr ok] eqn:R. simpl. apply Forall_app; split; auto.
       change tr with (fst (tr, ok)). rewrite <- R. apply run_with_Forall.
       rewrite Forall_forall in *. intros x Hx.
-      specialize (IH x Hx (callee_flags f r false)). rewrite Forall_forall in *.
-      intros y Hy. eapply eff_ok_wn_weaken; [apply callee_flags_sub | apply IH; auto].
+      specialize (IH x Hx (load_flags f r)). rewrite Forall_forall in *.
+      intros y Hy. eapply eff_ok_wn_weaken; [apply load_flags_sub | apply IH; auto].
   Qed.
 
   Lemma has_effect_In e tr : has_effect e tr = true -> exists g, In (e, g) tr.
@@ -385,7 +412,7 @@ Section machine_proofs.
     rewrite (has_mono _ _ _ H1 (H2 ltac:(discriminate))) in Hf. discriminate.
   Qed.
 
-  Theorem no_call_without_flag_partial : forall i f, f13_free i = true -> has f AllowCall = false ->
+  Theorem no_call_without_flag_partial : forall i f, f39_free i = true -> has f AllowCall = false ->
     has_effect ECall (fst (exec itab ntab f i)) = false.
   Proof.
     intros i f Hfree Hf. destruct (has_effect _ _) eqn:H; auto. apply has_effect_In in H. destruct H as [g Hin].
@@ -409,6 +436,23 @@ Section machine_proofs.
     - destruct (has_effect ENotify tr) eqn:H; auto. apply has_effect_In in H. destruct H as [g Hin].
       destruct (Hall _ Hin) as [H1 H2]. simpl in *.
       pose proof (has_mono _ _ _ H1 (H2 ltac:(discriminate))) as H3. rewrite safe_drops_notify in H3. discriminate.
+  Qed.
+
+  (* a dynamic script (System.Runtime.LoadScript) neither writes nor notifies, whatever is asked for *)
+  Theorem dynamic_script_is_readonly : forall f r body,
+    let tr := fst (run_with (exec itab ntab (load_flags f r)) body) in
+    has_effect EWrite tr = false /\ has_effect ENotify tr = false.
+  Proof.
+    intros f r body tr.
+    assert (Forall (eff_ok_wn (load_flags f r)) tr) as Hall.
+    { apply run_with_Forall. rewrite Forall_forall. intros x _. apply writes_notifies_in_order. }
+    rewrite Forall_forall in Hall. destruct (load_flags_readonly f r) as [Hw Hn]. split.
+    - destruct (has_effect EWrite tr) eqn:H; auto. apply has_effect_In in H. destruct H as [g Hin].
+      destruct (Hall _ Hin) as [H1 H2]. simpl in *.
+      pose proof (has_mono _ _ _ H1 (H2 ltac:(discriminate))) as H3. rewrite Hw in H3. discriminate.
+    - destruct (has_effect ENotify tr) eqn:H; auto. apply has_effect_In in H. destruct H as [g Hin].
+      destruct (Hall _ Hin) as [H1 H2]. simpl in *.
+      pose proof (has_mono _ _ _ H1 (H2 ltac:(discriminate))) as H3. rewrite Hn in H3. discriminate.
   Qed.
 
   (* a native method published as safe has no write / notify effect in the model *)
@@ -451,17 +495,50 @@ Definition no_write_without_flag_now := no_write_without_flag interops native_me
 Definition no_notify_without_flag_now := no_notify_without_flag interops native_methods itab_now ntab_now.
 Definition no_call_without_flag_partial_now := no_call_without_flag_partial interops native_methods itab_now ntab_now.
 Definition safe_is_readonly_now := safe_is_readonly interops native_methods itab_now ntab_now.
+Definition dynamic_script_is_readonly_now := dynamic_script_is_readonly interops native_methods itab_now ntab_now.
 Definition safe_native_is_readonly_now := safe_native_is_readonly interops native_methods itab_now ntab_now.
 Definition effects_in_order_now := effects_in_order interops native_methods itab_now ntab_now.
 
-(* the full no-call statement (without the F13 guard) is kept visible; it is refuted on the model because
-   NeoToken.vote is modelled with the call it really makes *)
-Definition no_call_without_flag_statement : Prop :=
-  forall i f, has f AllowCall = false -> has_effect ECall (fst (exec_now f i)) = false.
+Definition writes_notifies_in_order_now := writes_notifies_in_order interops native_methods itab_now ntab_now.
 
-Lemma no_call_without_flag_refuted : ~ no_call_without_flag_statement.
+(* a run started without AllowCall performs no call at all: its own frame cannot pass the gate of System.Contract.Call
+   or System.Runtime.LoadScript, so no deeper frame exists (this top-level form holds without the F39 guard) *)
+Theorem no_call_without_flag_now : forall i f, has f AllowCall = false -> has_effect ECall (fst (exec_now f i)) = false.
 Proof.
-  intros H.
-  (* a frame with Read|Call calls NeoToken.vote asking for Read|Write|Notify: the NEO frame has no AllowCall, yet calls *)
-  specialize (H (ICall 15 false [INative "NeoToken" "vote" 2 11]) 15). Fail discriminate H.
-Abort.
+  assert (forall f name tr, is_sys_caller name = true -> has f AllowCall = false ->
+            sys_step interops f name = Some tr -> False) as Hgate.
+  { intros f name tr Hc Hf S. unfold sys_step in S.
+    destruct (find_interop name interops) as [e|] eqn:F; [|discriminate].
+    apply find_interop_some in F. destruct F as [Hin Hn].
+    destruct (syscall_gate f e) eqn:G; [|discriminate].
+    pose proof (sys_ok_inv _ (itab_now _ Hin)) as [_ [_ Hca]]. rewrite Hn in Hca. specialize (Hca Hc).
+    unfold syscall_gate in G. assert (has f AllowCall = true) as H.
+    { rewrite has_spec in *. intros n Hn'. apply G. apply Hca. exact Hn'. }
+    rewrite H in Hf. discriminate. }
+  intros i f Hf. unfold exec_now. destruct i as [name | c m a r | r s body | r body]; simpl.
+  - destruct (sys_step interops f name) as [tr|] eqn:S; simpl; auto.
+    destruct (has_effect ECall tr) eqn:H; auto. apply has_effect_In in H. destruct H as [g Hin].
+    pose proof (sys_step_ok interops itab_now _ _ _ S) as Hall. rewrite Forall_forall in Hall.
+    destruct (Hall _ Hin) as [H1 H2]. simpl in *. rewrite (has_mono _ _ _ H1 H2) in Hf. discriminate.
+  - destruct (sys_step interops f "System.Contract.Call") as [tr0|] eqn:S; simpl; auto.
+    exfalso. eapply Hgate; eauto. reflexivity.
+  - destruct (sys_step interops f "System.Contract.Call") as [tr0|] eqn:S; simpl; auto.
+    exfalso. eapply Hgate; eauto. reflexivity.
+  - destruct (sys_step interops f "System.Runtime.LoadScript") as [tr0|] eqn:S; simpl; auto.
+    exfalso. eapply Hgate; eauto. reflexivity.
+Qed.
+
+(* F39.  The frame-level statement without the guard — every effect, calls included, is performed by a frame that has
+   the effect's flag — is kept visible and is refuted by the model, which gives NeoToken.vote the call it really makes. *)
+Definition effects_in_order_statement : Prop :=
+  forall i f, Forall (eff_ok f) (fst (exec_now f i)).
+
+Definition f39_witness : instr := INative "NeoToken" "vote" 2 11.
+
+Lemma effects_in_order_refuted : ~ effects_in_order_statement.
+Proof.
+  intros H. specialize (H f39_witness AllFlags). rewrite Forall_forall in H.
+  assert (In (ECall, 11) (fst (exec_now AllFlags f39_witness))) as Hin.
+  { vm_compute. right. right. right. left. reflexivity. }
+  destruct (H _ Hin) as [_ H2]. vm_compute in H2. discriminate.
+Qed.
